@@ -167,15 +167,17 @@ class _Ctx:
 
 def build_objects(case):
     from props import c07_parts as P
-    envs = [P.Env(i, dec(e["params"])) if e.get("params") is not None else P.EnvNoParams(i) for i, e in enumerate(case["envs"])]
-    lrns = [P.Lrn(i, dec(e["params"])) if e.get("params") is not None else P.LrnNoParams(i) for i, e in enumerate(case["lrns"])]
+    envs = [P.Env(i, dec(e["params"])) if e.get("params") is not None else (P.base_class("env", e["base"])(i) if e.get("base") else P.EnvNoParams(i)) for i, e in enumerate(case["envs"])]
+    lrns = [P.Lrn(i, dec(e["params"])) if e.get("params") is not None else (P.base_class("lrn", e["base"])(i) if e.get("base") else P.LrnNoParams(i)) for i, e in enumerate(case["lrns"])]
     vals = []
     for i, e in enumerate(case["vals"]):
         table = {}
         for (te, tl, tv), rows in case["rows"]:
             if tv == i:
                 table[(te, tl)] = [dec(r) for r in rows]
-        if e.get("params") is not None:
+        if e.get("params") is None and e.get("base"):
+            vals.append(P.base_class("val", e["base"])(i, table, e.get("lazy", True)))
+        elif e.get("params") is not None:
             vals.append(P.Evl(i, dec(e["params"]), table, e.get("lazy", True)))
         else:
             vals.append(P.EvlNoParams(i, table, e.get("lazy", True)))
@@ -401,6 +403,8 @@ def safe_params(kind, comp):
     """the params coba records for a component (SafeEnvironment/SafeLearner/SafeEvaluator.params), tagged pairs"""
     p = comp.get("params")
     cls = CLASSNAMES[kind][0 if p is not None else 1]
+    if p is None and comp.get("base"):
+        cls = {"env": "BaseEnv", "lrn": "BaseLrn", "val": "BaseEvl"}[kind] + comp["base"]     # inherits coba's base class, defines no params
     pairs = [list(kv) for kv in (p[1] if p is not None else [])]
     tk = TYPEKEY[kind]
     has = [kv for kv in pairs if kv[0] == S(tk)]
@@ -1304,6 +1308,18 @@ class C07(Property):
         envs = [{"params": gen_params(rng, "env")} for _ in range(ne)]
         lrns = [{"params": gen_params(rng, "lrn")} for _ in range(nl)]
         vals = [{"params": gen_params(rng, "val"), "lazy": rng.chance(0.6)} for _ in range(nv)]
+        if rng.chance(0.35):
+            # several components per kind that inherit coba's base classes without a params of their own, of different classes
+            for comps in (envs, lrns, vals):
+                letters = rng.shuffle(["A", "B", "C"])
+                for i, comp in enumerate(comps):
+                    if rng.chance(0.75):
+                        comp["params"] = None
+                        comp["base"] = letters[i % 3]
+        else:
+            for comp in envs + lrns + vals:
+                if comp["params"] is None and rng.chance(0.5):
+                    comp["base"] = rng.choice(["A", "B", "C"])
         allt = [[e, l, v] for e in range(ne) for l in range(nl) for v in range(nv)]
         k = rng.choice([1, 2, 2, 3, 4, len(allt)])
         triples = rng.sample(allt, min(k, len(allt)))
@@ -1417,6 +1433,16 @@ class C07(Property):
                 cs.append(dict(json.loads(json.dumps(g2)), fname=shape, gz=(shape == "gz"), shuffle=sh))
         cs.append(base([D((S(n), L(I(1), I(2)))) for n in ("past_rewards", "summary rewards", "eval_rewards", "rewards2", "Rewards", "rewards")]
                        + [D((S("past_rewards"), T(I(3))), (S("my index"), T()), (S("index2"), L(I(1))), (S("environment_id2"), T(I(0))), (S("_n"), L(I(5))), (S("_packed"), T()))], fname="gz", gz=True))
+        # components that inherit the base classes' params (round e m2): several classes per kind, plain and restored, and a decoy experiment before
+        for kw in ({}, {"phases": 2, "skip1": [[1, 1, 1]]}, {"decoy": True}, {"shuffle": -1}):
+            c = base([])
+            c.update({"envs": [{"params": None, "base": "A"}, {"params": None, "base": "B"}, {"params": None, "base": "C"}],
+                      "lrns": [{"params": None, "base": "B"}, {"params": None, "base": "A"}, {"params": None, "base": "C"}],
+                      "vals": [{"params": None, "base": "C", "lazy": True}, {"params": None, "base": "A", "lazy": False}],
+                      "triples": [[0, 0, 0], [1, 1, 1], [2, 2, 0], [0, 2, 1]],
+                      "rows": [[t, [D((S("reward"), I(i)))]] for i, t in enumerate([[0, 0, 0], [1, 1, 1], [2, 2, 0], [0, 2, 1]])]})
+            c.update(kw)
+            cs.append(c)
         # phase 3: `minimize` alone on boundary floats (6 x 2000 per run) and logs with ids recorded twice
         for sd in range(6):
             cs.append({"floats": sd, "count": 2000})
@@ -1460,6 +1486,12 @@ class C07(Property):
         # tags / non-triviality
         nontrivial = False
         tags.append("phases:%d" % case.get("phases", 1))
+        for kind in ("envs", "lrns", "vals"):
+            letters = {c.get("base") for c in case[kind] if c.get("params") is None and c.get("base")}
+            if len(letters) >= 2:
+                tags.append("inherited-params:" + kind + ":several-classes")
+            elif letters:
+                tags.append("inherited-params:" + kind)
         tags.append("fname:" + fname_shape(case))
         if case.get("decoy"):
             tags.append("decoy-run-on-same-path")
